@@ -928,8 +928,10 @@ def judge(cls, out, polg, locs):
     return bad
 
 
-def coarse(cls, loc):
+def coarse(cls, loc, clause=""):
     """location class used in signatures: one name per special set that the code treats as one case"""
+    if clause == "J-value" and loc.startswith("full-cylinder"):
+        return "full-cylinder-surface"      # ring = Cylinder(r2) - Cylinder(r1): two separately rounded masks
     if cls == "CylinderSegment" and loc.startswith("surface"):
         return "surface"
     if loc.startswith("full-cylinder") and loc.endswith("edge"):
@@ -1009,13 +1011,13 @@ def search_fields(ctx, per_class):
                     ctx.bump(f"search:{cls}:{c}")
                 seen = set()
                 for row, clause, detail in bad:
-                    key = (clause, coarse(cls, v["points"][row][1]))
+                    key = (clause, coarse(cls, v["points"][row][1], clause))
                     if key in seen:
                         continue
                     seen.add(key)
                     small, batch = shrink_scenario(v, row, clause)
                     locc = v["points"][row][1]
-                    sig = f"{clause}/{cls}:{coarse(cls, locc)}" + ("" if v["in_out"] == "auto" else ":in_out-" + v["in_out"])
+                    sig = f"{clause}/{cls}:{coarse(cls, locc, clause)}" + ("" if v["in_out"] == "auto" else ":in_out-" + v["in_out"])
                     ctx.impl_fail(sig, f"{cls} at a point of class '{locc}' ({batch}): {detail}; local point "
                                        f"{small['points'][0][0]}, {json.dumps(small['kwargs'])[:200]}", small)
 
@@ -1053,7 +1055,7 @@ def search_two_meshes(ctx, n):
                     same_alone = any(c == clause and r == row for r, c, _ in scenario_check(alone))
             except Exception:   # pylint: disable=broad-except
                 same_alone = False
-            locc = coarse(s["cls"], s["points"][row][1])
+            locc = coarse(s["cls"], s["points"][row][1], clause)
             if same_alone:
                 ctx.impl_fail(f"{clause}/{s['cls']}:{locc}", f"{s['cls']} at a point of class '{s['points'][row][1]}': {detail}", alone)
                 continue
@@ -1172,11 +1174,11 @@ def run(ctx):
     if ctx.tier == "thorough" and built:
         ctx.coqchk("MV.Props.C02")
 
-    run_guarded(ctx, lambda: correspondence(ctx, built, ctx.n(40, 400)), "C02 correspondence")
+    run_guarded(ctx, lambda: correspondence(ctx, built, ctx.n(40, 300)), "C02 correspondence")
 
     big = bool(ctx.broken)
     mult = 5 if big else 1
-    run_guarded(ctx, lambda: search_fields(ctx, ctx.n(12, 120) * mult), "C02 field oracle")
+    run_guarded(ctx, lambda: search_fields(ctx, ctx.n(12, 100) * mult), "C02 field oracle")
     run_guarded(ctx, lambda: search_two_meshes(ctx, ctx.n(6, 60) * mult), "C02 several sources")
     run_guarded(ctx, lambda: search_attrs(ctx, ctx.n(60, 600) * mult), "C02 attribute oracle")
 
